@@ -45,3 +45,16 @@ func TestPrintSample(t *testing.T) {
 		}
 	})
 }
+
+func TestNoDuplicateUnits(t *testing.T) {
+	rapid.Check(t, func(rt *rapid.T) {
+		p := GenProject(rt, Opts{Bodies: true, NameReuse: true, Interfaces: true, DupNames: true, Wide: true, RichDecl: true, ExtraImps: true, MaxUnits: 5})
+		seenPath, seenClass := map[string]bool{}, map[string]bool{}
+		for _, u := range p.Units {
+			if seenPath[u.Path] || seenClass[u.FullName()] {
+				rt.Fatalf("duplicate unit %s / %s", u.Path, u.FullName())
+			}
+			seenPath[u.Path], seenClass[u.FullName()] = true, true
+		}
+	})
+}
